@@ -1362,7 +1362,34 @@ def g9(ctx, res):
             if raises and always_exits(st.body):
                 idx = i
                 break
-    res.judge(True if idx is not None else None, pe, "if set(schema) & UNSUPPORTED_SCHEMA_KEYWORDS: raise FeatureNotImplementedError...",
+    g9_verdict = True if idx is not None else None
+    g9_detail = {}
+    if idx is None:
+        # positive evidence of a weakened refusal
+        for st in body:
+            for x in ast.walk(st):
+                # presence decided by the truth value of the keyword's value: filter(schema.get, UNSUPPORTED...) / schema.get(k)
+                if isinstance(x, ast.Call) and dotted(x.func) == "filter" and len(x.args) == 2 and norm(x.args[0]) == f"{s}.get" \
+                        and "UNSUPPORTED_SCHEMA_KEYWORDS" in norm(x.args[1]):
+                    g9_verdict, g9_detail = False, {"presence_by_truth_value": norm(x)[:100]}
+                if isinstance(x, (ast.GeneratorExp, ast.ListComp, ast.SetComp)) and any(
+                        "UNSUPPORTED_SCHEMA_KEYWORDS" in norm(g_.iter) for g_ in x.generators) \
+                        and any(norm(c_) == f"{s}.get({norm(x.generators[0].target)})" for g_ in x.generators for c_ in g_.ifs):
+                    g9_verdict, g9_detail = False, {"presence_by_truth_value": norm(x)[:100]}
+            # the refusal (or the helper holding it) runs only under a guard that is not the dispatch of non-dict schemas
+            if isinstance(st, ast.If) and not (isinstance_atom(st.test) and isinstance_atom(st.test)[0] == s):
+                holds = False
+                for x in ast.walk(st):
+                    if isinstance(x, ast.Raise) and x.exc is not None and "FeatureNotImplementedError" in norm(x.exc):
+                        holds = True
+                    if isinstance(x, ast.Call) and isinstance(x.func, ast.Name):
+                        r_ = ctx.prog.resolve_in(pe, x.func.id)
+                        if r_ and r_[0] == "func" and "UNSUPPORTED_SCHEMA_KEYWORDS" in norm(r_[1].node) \
+                                and any(norm(a_) == s for a_ in x.args):
+                            holds = True
+                if holds and not any(match(_parse(t), st.test) is not None for t in tests) and s not in norm(st.test):
+                    g9_verdict, g9_detail = False, {"refusal_only_when": norm(st.test)[:80]}
+    res.judge(g9_verdict, pe, "if set(schema) & UNSUPPORTED_SCHEMA_KEYWORDS: raise FeatureNotImplementedError...", detail=g9_detail,
               reason="schemas using an unsupported keyword are refused with the not-implemented error")
     if idx is None:
         return
